@@ -888,6 +888,12 @@ impl FileScheduler {
             while (updated_index < updated_requests.len()) && (orig_index < request.len()) {
                 let updated_range = &updated_requests[updated_index];
                 let orig_range = &request[orig_index];
+                if orig_range.is_empty() {
+                    // An empty range never overlaps anything; its answer is an empty buffer
+                    final_bytes.push(Bytes::new());
+                    orig_index += 1;
+                    continue;
+                }
                 let byte_offset = updated_range.start as usize;
 
                 if is_overlapping(updated_range, orig_range) {
@@ -921,6 +927,12 @@ impl FileScheduler {
                 } else {
                     updated_index += 1;
                 }
+            }
+
+            // Empty ranges after the last read still get their (empty) buffer
+            while orig_index < request.len() && request[orig_index].is_empty() {
+                final_bytes.push(Bytes::new());
+                orig_index += 1;
             }
 
             Ok(final_bytes)
